@@ -206,6 +206,8 @@ def make_plan(i, master, tier):
     # started in, and may be read through a preprocessor (which is run in the directory of the case)
     lg = kernel.stream(seed, 'launch')
     plan['launch'] = {'elsewhere': lg.random() < 0.4, 'pp': lg.random() < 0.35}
+    if i >= len(specs) and lg.random() < 0.4:
+        plan['case']['layout'] = casegen.random_layout(lg)
     return plan
 
 
@@ -213,10 +215,12 @@ def make_plan(i, master, tier):
 
 def execute(plan, scratch):
     w = world_mod.World(os.path.join(scratch, 'w'))
-    text = casegen.render_case(plan['case'], plan['status'])
+    files = casegen.render_files(plan['case'], plan['status'])
+    text = files['t.case']
     launch = plan.get('launch') or {}
     case_rel = 'cases/one/t.case' if launch.get('elsewhere') else 't.case'
-    w.write('home/' + case_rel, text)
+    for name, ftext in files.items():
+        w.write('home/' + os.path.join(os.path.dirname(case_rel), name), ftext)
     start = w.home
     if launch.get('elsewhere'):
         start = os.path.join(w.home, 'start')
